@@ -144,8 +144,8 @@ class C20(Check):
             for state in ('missing', 'file'):
                 self.sweep.append({'fn': 'delete_if_exists', 'errno': e,
                                    'state': state})
-        self.RUNS = {'quick': len(self.sweep) + 12000,
-                     'thorough': len(self.sweep) + 600000}
+        self.RUNS = {'quick': len(self.sweep) + 50000,
+                     'thorough': len(self.sweep) + 3000000}
 
     def setup(self):
         core.import_sut()
